@@ -48,6 +48,13 @@ func Gen(prop string, seed uint64, index int, tier string) *Case {
 	}
 	switch prop {
 	case "C03", "C16", "C17":
+		if prop == "C16" && r.Chance(0.08) {
+			// Close is final for a read-only collection, too: a store is built,
+			// reopened ReadOnly, read, closed, and the post-Close contract checked
+			genReadOnly(c, r, tier)
+			c.Flags["postCloseRO"] = true
+			break
+		}
 		genMulti(c, r, tier)
 	case "C05":
 		genCrash(c, r, tier)
@@ -99,6 +106,7 @@ func propCfg(prop string) genCfg {
 		base.idle = 0.4
 		base.clockW = 8
 		base.bigVals = 0.6
+		base.merges = 0.3
 	case "C08":
 		base.flags = []string{"verifyEach", "storeEach", "finalVerify", "finalReopen"}
 		base.merges = 1
@@ -121,6 +129,7 @@ func propCfg(prop string) genCfg {
 		base.kids = 1
 		base.reopen = 4
 		base.drainW = 8
+		base.merges = 0.3
 	case "C12":
 		base.backings = []string{"store"}
 		base.flags = []string{"history", "storeEach"}
